@@ -163,5 +163,24 @@ def r5(ctx):
                   'single-step and accumulated thresholds are not applied to later steps', s.where(), sample={'consensus_edges': len(starts)})
 
 
-RULES = [r1, r2, r3, r4, r5]
-FLOORS = {'C01-R1': 2, 'C01-R2': 6, 'C01-R3': 14, 'C01-R4': 4, 'C01-R5': 4}
+def r6(ctx):
+    ctx.rule('C01-R6', 'the accumulated-step counter persists: TimeSnapshot.accumulated_steps is written only by check_offset_steer (+= |change|) and at '
+             'construction, and no method of the controller overwrites self.timedata as a whole (a stale copy written back after steering would erase the step just counted)')
+    P = ctx.P
+    ws = sorted({bd.npath for bd, st in P.field_writers('accumulated_steps', r'system::TimeSnapshot$')})
+    ctx.check('who-writes-accumulated_steps', ws == [K + '::check_offset_steer'], 'writers of TimeSnapshot.accumulated_steps: %s' % ws, sample=ws)
+    whole = []
+    n = 0
+    for b in P.bodies.values():
+        if b.raw['promoted'] is not None or b.krate != 'ntp_proto':
+            continue
+        for st in b.assigns(lambda pl: bool(pl['p'])):
+            last = st.data['place']['p'][-1] if st.kind in ('assign', 'calldest') or 'place' in st.data else None
+            if isinstance(last, dict) and last.get('f') == 'timedata' and str(last.get('of', '')).endswith('KalmanClockController'):
+                whole.append('%s @ %s' % (b.npath.split('::')[-1], st.where()))
+        n += 1
+    ctx.check('no-whole-timedata-write', not whole, 'self.timedata is overwritten as a whole in %s: accumulated_steps (and the other counters) can be reset to a stale value' % whole, sample=n)
+
+
+RULES = [r1, r2, r3, r4, r5, r6]
+FLOORS = {'C01-R1': 2, 'C01-R2': 6, 'C01-R3': 14, 'C01-R4': 4, 'C01-R5': 4, 'C01-R6': 2}
